@@ -609,8 +609,40 @@ def rule_P3(ctx):
         inside = [d for d in ds if loop is not None and any(d is x for x in ast.walk(loop))]
         fresh = [d for d in inside if isinstance(d.value, ast.Call) and callee_name(d.value) in (
             "deepcopy", "list", "copy")]
-        if ds and len(inside) == len(ds) and fresh:
-            res.holds(inst, "copied per transition")
+        # a list that comes from outside the loop is fine as long as no iteration changes it
+        # in place: every per-transition variant is then a new list (x + [i], a filter, ..)
+        shared_ok = False
+        if loop is not None and not (ds and len(inside) == len(ds) and fresh):
+            aliases = {var}
+            for _ in range(4):
+                for n_ in ast.walk(loop):
+                    if isinstance(n_, ast.Assign) and isinstance(n_.value, ast.Name):
+                        tg = {t_.id for t_ in n_.targets if isinstance(t_, ast.Name)}
+                        if n_.value.id in aliases:
+                            aliases |= tg
+                        if tg & aliases:
+                            aliases.add(n_.value.id)
+            mutated = False
+            for n_ in ast.walk(loop):
+                if isinstance(n_, ast.Call) and isinstance(n_.func, ast.Attribute) and \
+                        isinstance(n_.func.value, ast.Name) and n_.func.value.id in aliases and \
+                        n_.func.attr in ("append", "extend", "remove", "insert", "pop", "sort",
+                                         "reverse", "clear"):
+                    mutated = True
+                if isinstance(n_, ast.AugAssign) and isinstance(n_.target, ast.Name) and \
+                        n_.target.id in aliases:
+                    mutated = True
+                if isinstance(n_, (ast.Subscript,)) and isinstance(n_.ctx, (ast.Store, ast.Del)) \
+                        and isinstance(n_.value, ast.Name) and n_.value.id in aliases:
+                    mutated = True
+            roots = [d for a_ in aliases for d in _defs(f, a_)
+                     if not isinstance(d.value, ast.Name)]
+            copied = any(isinstance(d.value, ast.Call) and callee_name(d.value) in (
+                "deepcopy", "list", "copy") for d in roots)
+            shared_ok = not mutated and copied
+        if (ds and len(inside) == len(ds) and fresh) or shared_ok:
+            res.holds(inst, "copied per transition" if not shared_ok else
+                      "copied once and never changed in place inside the loop")
         else:
             res.violated(inst, _f(
                 "P3", f, node, "ctxs of the staged next task",
@@ -689,11 +721,38 @@ def _staging_justified(ctx, f, fg, node, atoms):
 
 
 def _criteria_guard(ctx, f0, fg0, node, atoms):
+    """Every way the guards of `node` can hold includes 'all(criteria) of this transition'.
+    Boolean locals and result temporaries are expanded into the alternatives they stand for
+    first (a verdict computed in an inlined helper reads like the inlined original)."""
+    own = [a for f, a in atoms if f is f0]
+    others = [(f, a) for f, a in atoms if f is not f0]
+    alts = expand_alternatives(f0, fg0, own)
+    if len(alts) > 1 or (alts and alts[0] != own):
+        verdict = None
+        for alt in alts:
+            ok, why = _criteria_guard_1(ctx, f0, fg0, node, others + [(f0, a) for a in alt])
+            if not ok:
+                # fall back to the unexpanded form before giving up
+                ok0, why0 = _criteria_guard_1(ctx, f0, fg0, node, atoms)
+                return (ok0, why0) if ok0 else (ok, why)
+            verdict = (ok, why)
+        if verdict is not None:
+            return verdict
+    return _criteria_guard_1(ctx, f0, fg0, node, atoms)
+
+
+def _criteria_guard_1(ctx, f0, fg0, node, atoms):
     prog = ctx.prog
     for f, a in atoms:
         if a[0] != "truthy":
             continue
         cands = []
+        if a[1].startswith("all("):
+            # the verdict expression itself (a boolean local has been expanded into it)
+            try:
+                cands.append(ast.Assign(targets=[], value=ast.parse(a[1], mode="eval").body))
+            except SyntaxError:
+                pass
         if a[1].isidentifier():
             # a local that holds the transition's verdict
             for d in _defs(f, a[1]):
@@ -723,8 +782,9 @@ def _criteria_guard(ctx, f0, fg0, node, atoms):
                             while isinstance(v, ast.Name) and len(_defs(f, v.id)) == 1:
                                 v = _defs(f, v.id)[0].value
                             break
-                if a[1].isidentifier() and not (isinstance(v, ast.Call) and isinstance(
-                        v.func, ast.Name) and v.func.id == "all"):
+                if (a[1].isidentifier() or a[1].startswith("all(")) and not (
+                        isinstance(v, ast.Call) and isinstance(v.func, ast.Name)
+                        and v.func.id == "all"):
                     continue
                 if not (isinstance(v, ast.Call) and isinstance(v.func, ast.Name)
                         and v.func.id == "all" and v.args):
@@ -960,13 +1020,22 @@ def rule_P6(ctx):
                                          for c in calls_in(n.test)):
             R = n
     if R is None:
+        # the decision may have been moved into helpers that are inlined here: the statement
+        # that hands the task over to a retry is the anchor then
+        for n in ast.walk(f.node):
+            if isinstance(n, ast.If) and any(callee_name(c) == "TaskRetryEvent"
+                                             for b in n.body for c in calls_in(b)):
+                R = n
+    if R is None:
         res.violated(("R",), _f("P6", f, f.node, "retry decision",
                                 "update_task_state no longer evaluates the task retry"))
         return res
     res.facts["retry_precondition"] = unparse(R.test)
     active = status_set(ctx, "ACTIVE_STATUSES")
     conj = fg.norm.conj(R.test, True)
-    if any(a[0] == "in" and a[2] == active and "status" in a[1] for a in conj):
+    grant_alts = expand_alternatives(f, fg, list(conj))
+    if all(any(a[0] == "in" and a[2] == active and "status" in a[1] for a in alt)
+           for alt in grant_alts):
         res.holds(("precondition",), "retry only while the workflow status is active")
     else:
         res.violated(("precondition",), _f(
@@ -1012,58 +1081,74 @@ def rule_P6(ctx):
                 "(missing guards %s)" % fmt_atoms(missing)))
         else:
             res.holds(("implied", norm_src(n)))
-    # (iv) bound
-    g = prog.function("conducting.WorkflowConductor._evaluate_task_retry")
-    gg = FuncGuards(prog, g)
-    for r in ast.walk(g.node):
-        if isinstance(r, ast.Return) and isinstance(r.value, ast.Constant) and r.value.value is True:
-            atoms = gg.atoms(r)
-            ok = False
-            for a in atoms:
-                if a[0] == "<" and isinstance(a[2], tuple):
-                    lt, rt = a[1], a[2][1]
-                    dl, dr = _defs(g, lt), _defs(g, rt)
-                    if dl and dr and "tally" in unparse(dl[-1].value) and "count" in unparse(
-                            dr[-1].value):
-                        ok = True
-                if a[0] == ">" and isinstance(a[2], tuple):
-                    lt, rt = a[2][1], a[1]
-                    dl, dr = _defs(g, lt), _defs(g, rt)
-                    if dl and dr and "tally" in unparse(dl[-1].value) and "count" in unparse(
-                            dr[-1].value):
-                        ok = True
-            inst = ("bound", norm_src(r), r.lineno)
-            if ok:
-                res.holds(inst)
+    # (iv) bound and condition, on every way a retry can be granted
+    from sa.core import subst_locals
+    g = prog.find_function("conducting.WorkflowConductor._evaluate_task_retry")
+    grants = []   # (function, node for the report, atoms)
+    if g is not None and any(callee_name(c) == "_evaluate_task_retry" for c in calls_in(R.test)):
+        gg = FuncGuards(prog, g)
+        for r in ast.walk(g.node):
+            if isinstance(r, ast.Return) and isinstance(r.value, ast.Constant) and r.value.value is True:
+                grants.append((g, r, gg.atoms(r), norm_src(r)))
+    else:
+        for k_, alt in enumerate(grant_alts):
+            grants.append((f, R, alt, "grant %d" % k_))
+
+    def _resolved(fn, txt):
+        """atom text with single-assignment locals replaced by what they stand for"""
+        try:
+            return unparse(subst_locals(fn.node, ast.parse(txt, mode="eval").body))
+        except (SyntaxError, ValueError):
+            return txt
+
+    def _flat(ats):
+        for a_ in ats:
+            if a_[0] in ("or", "and"):
+                for alt in a_[1]:
+                    for x_ in _flat(alt):
+                        yield x_
             else:
-                res.violated(inst, _f(
-                    "P6", g, r, "return True", "a retry is granted without 'tally < count' in "
-                    "force (guards: %s): more than count+1 attempts" % fmt_atoms(atoms)))
-            # the policy's own condition decides: a grant either follows a true evaluation of
-            # `when`, or is the default (abended) rule of a policy that has no `when`
-            def _flat(ats):
-                for a_ in ats:
-                    if a_[0] in ("or", "and"):
-                        for alt in a_[1]:
-                            for x_ in _flat(alt):
-                                yield x_
-                    else:
-                        yield a_
-            consulted = any(
-                (a_[0] == "is" and "when" in a_[1] and a_[2] is None)
-                or (a_[0] == "falsy" and "when" in a_[1] and "evaluate" not in a_[1])
-                or (a_[0] == "truthy" and "evaluate" in a_[1] and "when" in a_[1])
-                for a_ in _flat(atoms))
-            inst = ("when", norm_src(r), r.lineno)
-            if consulted:
-                res.holds(inst)
-            else:
-                res.violated(inst, _f(
-                    "P6", g, r, "return True without the retry condition",
-                    "a retry is granted on a path that neither evaluated the policy's `when` to "
-                    "true nor established that the policy has no `when` (guards: %s): a failed "
-                    "attempt is retried although its retry condition is false"
-                    % fmt_atoms(atoms)))
+                yield a_
+    for fn_, node_, atoms, label in grants:
+        ok = False
+        for a in _flat(atoms):
+            if a[0] in ("<", ">") and isinstance(a[2], tuple):
+                lt, rt = (a[1], a[2][1]) if a[0] == "<" else (a[2][1], a[1])
+                if "tally" in _resolved(fn_, lt) and "count" in _resolved(fn_, rt):
+                    ok = True
+        inst = ("bound", label, getattr(node_, "lineno", 0))
+        if ok:
+            res.holds(inst)
+        else:
+            res.violated(inst, _f(
+                "P6", fn_, node_, "return True" if fn_ is g else "retry granted",
+                "a retry is granted without 'tally < count' in "
+                "force (guards: %s): more than count+1 attempts" % fmt_atoms(atoms)))
+        # the policy's own condition decides: a grant either follows a true evaluation of
+        # `when`, or is the default (abended) rule of a policy that has no `when`
+        consulted = False
+        for a_ in _flat(atoms):
+            t_ = _resolved(fn_, a_[1]) if isinstance(a_[1], str) else ""
+            if a_[0] == "is" and "when" in t_ and a_[2] is None:
+                consulted = True
+            if a_[0] == "falsy" and "when" in t_ and "evaluate" not in t_:
+                consulted = True
+            if a_[0] == "truthy" and "evaluate" in t_ and "when" in t_:
+                consulted = True
+        inst = ("when", label, getattr(node_, "lineno", 0))
+        if consulted:
+            res.holds(inst)
+        else:
+            res.violated(inst, _f(
+                "P6", fn_, node_, "return True without the retry condition" if fn_ is g
+                else "retry granted without the retry condition",
+                "a retry is granted on a path that neither evaluated the policy's `when` to "
+                "true nor established that the policy has no `when` (guards: %s): a failed "
+                "attempt is retried although its retry condition is false"
+                % fmt_atoms(atoms)))
+    if not grants:
+        res.violated(("bound",), _f("P6", f, R, "retry granted",
+                                    "no path grants a retry: the retry policy is dead"))
     # (iv-c) the evaluated delay / count are written back under the key they were read from
     srt = prog.find_function("conducting.WorkflowConductor.setup_retry_in_task_state")
     if srt is not None:
@@ -1781,4 +1866,63 @@ def rule_P11(ctx):
                 "the `completed` flag of the staged entry is cleared only under %s: when that "
                 "does not hold the rerun is still accepted but the task is never offered"
                 % fmt_atoms(extra)))
+    return res
+
+
+# ====================================================================== P12
+def rule_P12(ctx):
+    """A rerun un-terminates what follows from the rerun task: the loop over
+    get_task_sequence(task, route) that clears the `term` flag of the descendants runs for every
+    rerun task, whatever its kind.  If it is skipped for some tasks (e.g. behind an early return
+    for with-items tasks), superseded records stay terminal: they feed the final context and a
+    later default rerun picks them up again."""
+    res = RuleResult("P12", "the rerun path clears the term flag of every descendant of the "
+                            "rerun task under no condition other than the request's validity")
+    prog = ctx.prog
+    entry = "conducting.WorkflowConductor.request_workflow_rerun"
+    completed = status_set(ctx, "COMPLETED_STATUSES")
+    sites = []
+    for f in prog.all_functions():
+        if f.module.short != "conducting":
+            continue
+        for lp in ast.walk(f.node):
+            if isinstance(lp, ast.For) and any(
+                    callee_name(c) == "get_task_sequence" for c in ast.walk(lp.iter)
+                    if isinstance(c, ast.Call)):
+                pops = [c for c in calls_in(lp) if callee_name(c) == "pop" and c.args
+                        and isinstance(c.args[0], ast.Constant) and c.args[0].value == "term"]
+                if pops:
+                    sites.append((f, lp, pops[0]))
+    if not sites:
+        rf = prog.function(entry)
+        res.violated(("descendants",), _f(
+            "P12", rf, rf.node, "term reset of the descendants",
+            "the rerun path no longer clears the term flag of the tasks that follow the rerun "
+            "task (loop over get_task_sequence)"))
+        return res
+    extras = []
+    for f, lp, pop in sites:
+        extra = []
+        for a in chain_guards(ctx, f, lp):
+            a = a[1]
+            if a[0] == "in" and a[2] == completed:
+                continue
+            if a[0] == "falsy" and "invalid" in untag(str(a[1])):
+                continue
+            extra.append(a)
+        extras.append(extra)
+    # several copies of the loop on complementary branches cover every rerun task together
+    covered = any(not x for x in extras) or any(
+        len(x) == 1 and len(y) == 1 and _complementary(x[0], y[0])
+        for i_, x in enumerate(extras) for y in extras[i_ + 1:])
+    for (f, lp, pop), extra in zip(sites, extras):
+        inst = (f.qualname, norm_src(lp))
+        if not extra or covered:
+            res.holds(inst)
+        else:
+            res.violated(inst, _f(
+                "P12", f, lp, "term reset of the descendants: " + norm_src(lp),
+                "the descendants of a rerun task lose their term flag only under %s: for the "
+                "other rerun tasks superseded records stay terminal (they feed the final "
+                "context and are picked up again by a later default rerun)" % fmt_atoms(extra)))
     return res
